@@ -283,7 +283,7 @@ def _par_deep(tier, seed, props, mode):
     return out
 
 
-def _par_probe_bundles(tier, seed, props, mode="plain"):
+def _par_probe_bundles(tier, seed, props, mode="plain", caches=(0, 1), single_worker=False):
     """probe-directed selection for the scheduled runs: a concrete pre-scan (pseudo-random costs AND a pseudo-random
     schedule with up to 3-6 pre-emptions, ~0.5 ms per run) looks for (structure, costs, schedule) on which ONE concrete run
     of the parallel solver already violates an obligation; the scheduled symbolic exploration then STARTS from that run
@@ -303,9 +303,13 @@ def _par_probe_bundles(tier, seed, props, mode="plain"):
         dict(n=4, b=3, d=3, threads=2, preempt=3, width=1), dict(n=4, b=2, d=2, threads=2, preempt=5, width=1),
         dict(n=4, b=3, d=2, threads=3, preempt=4, width=1), dict(n=5, b=3, d=2, threads=2, preempt=3, width=2),
     ]
+    if single_worker:
+        # deterministic (one worker, no pre-emption): the parallel solver's own use of the cache, many more structures
+        cfgs = [dict(c, threads=1, preempt=0) for c in cfgs]
+        count, tries = count * 4, 5
     jobs = []
     for ci, cfg in enumerate(cfgs):
-        for ca in (0, 1):
+        for ca in caches:
             for dd in (("lel", "pooled") if ci % 2 == 0 else ("frontier",)):
                 a = dict(kind="finddynpar", dd=dd, cache=ca, fringe=("nodup" if (ci + ca) % 3 == 2 else "simple"), mode=mode, props=props, setnext=1, start=seed * 1000 + 1, count=count, take=2, tries=tries, kmax=14, **cfg)
                 if ca:
@@ -437,6 +441,9 @@ def plan(prop, tier, seed, find):
                 ii += 1
                 inv.append(P(kind="dd", dd=dd, comp="relaxed", seed=sd, width="1", roots="0", rub=("hslack" if ii % 3 == 0 else "none"), lb=("sym" if ii % 2 else "none"), hist=4, hist_seed=(ii % 3), rev=0, props="C09", **famv, **limv))
         parc = _par_bundles(tier, seed, "C09", ["plain"], variants=[dict(threads=2, preempt=1, cache=1, fringe="simple", mapyield=1), dict(threads=2, preempt=2, cache=1, fringe="nodup"), dict(threads=3, preempt=1, cache=1, fringe="simple")], nseeds=(1 if tier == "quick" else 6))
+        # the parallel solver's own use of the cache (thresholds written at pop time): probe-directed, one worker
+        # (deterministic, many structures) and two or three workers
+        parc += _par_probe_bundles(tier, seed, "C09", caches=(1,), single_worker=True) + _par_probe_bundles(tier, seed, "C09", caches=(1,))
         return dict(engine="symx", bundles=inv + _solve_bundles(tier, seed, find, "C09", ["plain"], fams=fams, caches=("1",), nseeds=(2 if tier == "quick" else 12)) + parc + cached_directed("C09"), prefixes=["C09:", "nontermination"], vacuity=dict(explored_ge2=1, explored_ge4=1, threshold_checked=1, second_step=1), functions=FUNCS_SOLVE + ["kani: Cache::must_explore"], bounds=bound_solve + "; SimpleCache only, re-convergent structures (2 base states per layer); diagram level: the solver step (restricted then relaxed compilation against the real SimpleCache, cut-set kept as open set) on every reachable root with symbolic incumbent, followed by one or two further steps on seeded cut-set nodes, threshold invariant checked after each step",
                     nontrivial=("decided sub-case in which the solver processed >= 2 sub-problems on some path", lambda r: r["notes"].get("explored_ge2", 0) > 0), kani=["C09"])
     bound_par = ("table models n=3, <=3 base states, 2-3 symbolic arc costs; 1-3 workers (thorough: up to 4), pre-emption bound 1-2 (thorough: up to 3), every lock acquisition / condvar wait / worker exit a scheduling choice, "
